@@ -1,7 +1,7 @@
 /-
   C06 — hand-written executable model, second part:
     financepy/products/equity/equity_swap_leg.py   EquitySwapLeg.value   (the payment loop, the cached tables)
-    financepy/products/equity/equity_swap.py       EquitySwap.value / _fill_rate_notional_array
+    financepy/products/equity/equity_swap.py       EquitySwap.value / _fill_rate_notional_array (as repaired: by accrual dates)
     financepy/products/rates/ibor_basis_swap.py    IborBasisSwap.__init__ (opposite leg types, one notional, principal 0)
     financepy/products/rates/ibor_swap.py          IborSwap.cash_settled_pv01 (flat annuity loop, start index rule),
                                                    IborSwap.valuation_details (pv01, market_rate)
@@ -88,21 +88,40 @@ def eqLastNotionals (st : EqSt α) : List α := st.rows.map (·.lastN)
 
 /-! ### EquitySwap._fill_rate_notional_array / value -/
 
-/-- `for last_notional in last_notionals: for _ in range(multiple): notional_array.append(last_notional)` -/
+/-- `while i_eq + 1 < len(eq_end_dts) and start_dt >= eq_end_dts[i_eq]: i_eq += 1` — the pointer into the equity
+periods, as the list of periods from the pointer on (`(end_accd_dt, last_notional)` each); it never moves past the
+last period. -/
+def advancePtr (start : Int) : List (Int × α) → List (Int × α)
+  | [] => []
+  | [e] => [e]
+  | e :: e' :: rest => if e.1 ≤ start then advancePtr start (e' :: rest) else e :: e' :: rest
+
+/-- `_fill_rate_notional_array` (as repaired): one entry per rate period, `for start_dt in rate_leg.start_accrued_dts:`
+advance the pointer, `notional_array.append(last_notionals[i_eq])`.  The pointer is carried from one rate period to
+the next.  (`[]` for an equity leg without periods stands for the IndexError; the constructor refuses such legs.) -/
+def assignNotionals : List (Int × α) → List Int → List α
+  | _, [] => []
+  | es, s :: ss =>
+    match advancePtr s es with
+    | [] => []
+    | e :: es' => e.2 :: assignNotionals (e :: es') ss
+
+/-- The layout of the code BEFORE the repair: every reset notional repeated `multiple` times, front-aligned. -/
 def fillNotionals (multiple : Nat) : List α → List α
   | [] => []
   | x :: xs => List.replicate multiple x ++ fillNotionals multiple xs
 
-/-- The other arrangement (the whole list repeated `multiple` times) — what the code does NOT do. -/
+/-- The other wrong arrangement (the whole list repeated `multiple` times). -/
 def tileNotionals (multiple : Nat) (ls : List α) : List α :=
   match multiple with
   | 0 => []
   | m + 1 => ls ++ tileNotionals m ls
 
-/-- `_fill_rate_notional_array` with the frequency test: `multiple = int(rate_freq // eq_freq)`,
-`FinError` unless `rate_freq % eq_freq == 0` (frequencies are the positive numbers of payments per year). -/
-def fillRateNotionals (eqFreq rateFreq : Nat) (ls : List α) : Except PyErr (List α) :=
-  if rateFreq % eqFreq ≠ 0 then .error .finError else .ok (fillNotionals (rateFreq / eqFreq) ls)
+/-- `_fill_rate_notional_array` with the frequency test (kept by the repair): `FinError` unless
+`rate_freq % eq_freq == 0` (frequencies are the positive numbers of payments per year); then the assignment by dates. -/
+def fillRateNotionals (eqFreq rateFreq : Nat) (eqEnds : List Int) (ls : List α) (rateStarts : List Int) :
+    Except PyErr (List α) :=
+  if rateFreq % eqFreq ≠ 0 then .error .finError else .ok (assignNotionals (eqEnds.zip ls) rateStarts)
 
 /-- An `EquitySwap`: equity leg and floating rate leg (`rate_leg_type` opposite, notional = equity notional,
 principal 0). -/
@@ -118,11 +137,11 @@ def mkEqSwap (eqIsPay : Bool) (strike qty spread : α) (eqFreq rateFreq : Nat) (
     eqFreq := eqFreq, rateFreq := rateFreq }
 
 /-- `EquitySwap.value`: equity leg, then the rate leg's `notional_array` is filled from the equity leg's
-`last_notionals`, then the rate leg. -/
+`last_notionals` (by the accrual dates of the two legs), then the rate leg. -/
 def eqSwapValue (df : Int → α) (idx : IndexCurve α) (dvd : Int → α) (cur : Option α) (ff : Option α)
     (s : EqSwap α) (vd : Int) : Except PyErr α :=
   let st := eqState df idx dvd cur s.eq vd
-  match fillRateNotionals s.eqFreq s.rateFreq (eqLastNotionals st) with
+  match fillRateNotionals s.eqFreq s.rateFreq (s.eq.periods.map (·.stop)) (eqLastNotionals st) (s.rate.periods.map (·.start)) with
   | .error e => .error e
   | .ok arr => .ok (applySign s.eq.isPay st.pv + floatValue df idx ff { s.rate with notionals := arr } vd)
 
